@@ -14,7 +14,7 @@ CHECKS = {
     "C02": ("exploration",
             "proptest specifications x exhaustive level/target grid against a reference matcher, through the real log macros",
             "Generated specifications (prefix-related names, level words as names, all levels, optional default/regex, built by builder or parser) and per case the full level x target grid logged through the log macros into a switchboard global logger; written set must equal the reference matcher + regex, log::max_level must admit all accepted records and writer ceilings, Log::enabled must equal the matcher. Search over ~1M grid cells per quick run, no proof.",
-            "trusts the 15-line reference matcher written from the LogSpecification documentation and the regex crate; custom writers are assumed well-behaved (honour their own ceiling)",
+            "trusts the 15-line reference matcher written from the LogSpecification documentation and the regex crate; custom writers are assumed well-behaved (honour their own ceiling); the brace-with-_Default clause (listed finding KF-C02-1) is evaluated for every 20th case",
             "DESIGN.md 4/C02"),
     "C03": ("exploration",
             "randomised schedule sampling (proptest configurations, barrier-released threads, seed-chosen noise at hook points) with self-checking payloads",
@@ -84,7 +84,7 @@ CHECKS = {
     "C14": ("exploration",
             "differential twin runs (with vs without foreign entries) over proptest-generated near-miss names, metadata comparison of the foreign entries",
             "The same generated multi-run history is executed in a directory pre-populated with near-miss foreign entries (classified by the reference family predicate) and in an empty directory under the same virtual clock; foreign entries must keep name/inode/size/mtime/bytes, and family files, existing_log_files answers and error counts must be identical between the twins. Search, not proof.",
-            "the reference family predicate defines 'foreign'; names that flexi_logger's lenient filter adopts are attributed to KF-C14-1 (exact signature) and kept to 15% of the cases",
+            "the reference family predicate (src/observe.rs) defines 'foreign'; sub-directories may also carry real family names that no history produces; KF-C07-1 tolerated by exact signature",
             "DESIGN.md 4/C14"),
     "C08": ("exploration",
             "proptest histories + reference partition model (model-based testing)",
